@@ -1001,6 +1001,42 @@ impl C10 {
     clean_state();
   }
 
+  /// a = [last year]: answers about a fixed set of early and scattered months, then EVERY lunar month of the years up to
+  /// `last year` once (tens of thousands of distinct requests in one process), then the fixed set again: a memo with a
+  /// capacity, an eviction rule or a growing table must not change any answer
+  fn eval_long(&self, env: &Env, out: &mut Out, case: &Case) {
+    let last = case.a[0].clamp(100, 9999);
+    out.eval("long");
+    out.nontrivial("long", &case.a);
+    clean_state();
+    let mut probe: Vec<Vec<i64>> = vec![];
+    for y in (0..=40i64).chain([236, 1582, 1999, 2000, 2033, last - 1, last]) {
+      for m in valid_months(y) {
+        probe.push(vec![0, y, m, 0, 0]);
+      }
+      probe.push(vec![7, y.clamp(0, 9998), 0, 0, 0]);
+      probe.push(vec![2, y.clamp(1, 9998), 6, 15, 0]);
+    }
+    let before: Vec<String> = probe.iter().map(|o| answer(o)).collect();
+    let mut n = 0u64;
+    for y in 41..=last {
+      for m in valid_months(y) {
+        let _ = guard(|| LunarMonth::from_ym(y as isize, m as isize).get_day_count());
+        n += 1;
+      }
+    }
+    out.class_n("distinct_month_requests_in_one_long_history", n);
+    out.sample("long", true, || json!({"probe_requests": probe.len(), "distinct_months_requested_in_between": n}));
+    for (o, b) in probe.iter().zip(before.iter()) {
+      let a = answer(o);
+      if a != *b {
+        out.fail(env, Viol { sub: "long".into(), kind: "answer_changed_after_a_long_history".into(), case: case.clone(), key: key(&[("op", o[0]), ("p1", o[1]), ("p2", o[2])]), desc: format!("{} before and after {} other distinct month requests in the same process", op_desc(o), n), expected: b.clone(), got: a });
+        break;
+      }
+    }
+    clean_state();
+  }
+
   /// the same requests issued concurrently by 16 threads from a shared queue
   fn eval_threads(&self, env: &Env, out: &mut Out, case: &Case) {
     let ops = ops_of(case);
@@ -1089,7 +1125,7 @@ impl Prop for C10 {
   }
   fn meta(&self, _env: &Env) -> Meta {
     Meta {
-      rule: "Requests: LunarMonth::from_ym, LunarDay::new (+3 getter orders over the per-value memos), SolarDay->lunar, SixtyCycleDay, LunarFestival::from_index, eight characters, ChildLimit, LunarYear month list, LunarMonth::next; each answer is a canonical string of all observable fields, a refusal (Err or panic) is REFUSED. Generators: (1) `collide`: both orders of every pair of valid (year, month) requests whose undelimited concatenation year||month or month||year coincides (complete), and `collide_arith`: both orders of pairs that coincide under 25 arithmetic key functions (year*k+month, year*k+|month| for k in 10..64, leap twins, xor/shift packings), up to 400/4000 pairs per function; (2) `history`: proptest vec(op, 1..60), 40% of years from a 30-year pool of neighbouring/colliding years, ~22% injected refused requests (month 0/13/-13, leap month the year lacks, day 0/31/32, year -2/-1/10000, child limits ending outside the supported range or in the 1582 gap); (3) `threads`: proptest-generated request lists issued by 16 threads from a shared queue (a round in which no request completes for 1 min + 300x the one-by-one time is reported as blocked); (3b) `hammer`: 30 narrow observers (one getter family each: day of year, lunar date, pillars, term day, the term-anchored series, almanac cycles, nine stars of day and hour, taboos, child limit, festivals, holidays, weeks, lunar/sexagenary years and months, Julian dates, stepping, stem-branch relations), each asked about 48 proptest dates one by one and then by 8 threads at once in tight loops (dense contention inside one piece of library code); (4) `fresh`: proptest histories executed in a fresh process and each request alone in its own fresh process (no hooks). A third of the histories are clusters (all requests moved into the three years around one base year) and a third are neighbourhoods (all date-carrying requests within 45 days of one base date, half of the time a date where the calendar is irregular; month-carrying requests in the lunar months around it). Requests also cover solar terms incl. year-carrying indices, day->term, Julian date -> day/instant/weekday, civil day arithmetic, civil month lists, sexagenary months, and single requests that internally compare 'views read first' with 'not read' (reported as ORDER-DEPENDENT). Oracle: answer inside the history (run in its own fresh thread) == answer of the same request from a pristine state (guarded hooks empty the memo and clear lock poison; a brand-new thread gives pristine thread-locals) == answer in a fresh process; a history whose next request does not return within 1 min + 300x its pristine time is reported as blocked. Non-trivial: the history contains two lunar-month requests with equal concatenated digits, a month and its leap twin, or a refusal followed by at least one valid request; every threaded round is non-trivial. Distinct = distinct op sequences.".into(),
+      rule: "Requests: LunarMonth::from_ym, LunarDay::new (+3 getter orders over the per-value memos), SolarDay->lunar, SixtyCycleDay, LunarFestival::from_index, eight characters, ChildLimit, LunarYear month list, LunarMonth::next; each answer is a canonical string of all observable fields, a refusal (Err or panic) is REFUSED. Generators: (1) `collide`: both orders of every pair of valid (year, month) requests whose undelimited concatenation year||month or month||year coincides (complete), and `collide_arith`: both orders of pairs that coincide under 25 arithmetic key functions (year*k+month, year*k+|month| for k in 10..64, leap twins, xor/shift packings), up to 400/4000 pairs per function; (2) `history`: proptest vec(op, 1..60), 40% of years from a 30-year pool of neighbouring/colliding years, ~22% injected refused requests (month 0/13/-13, leap month the year lacks, day 0/31/32, year -2/-1/10000, child limits ending outside the supported range or in the 1582 gap); (3) `threads`: proptest-generated request lists issued by 16 threads from a shared queue (a round in which no request completes for 1 min + 300x the one-by-one time is reported as blocked); (3b) `hammer`: 30 narrow observers (one getter family each: day of year, lunar date, pillars, term day, the term-anchored series, almanac cycles, nine stars of day and hour, taboos, child limit, festivals, holidays, weeks, lunar/sexagenary years and months, Julian dates, stepping, stem-branch relations), each asked about 48 proptest dates one by one and then by 8 threads at once in tight loops (dense contention inside one piece of library code); (3c) `long`: one history of every lunar month of 5,800 (quick) / 9,999 years (72k / 124k distinct requests) between two passes over a fixed probe set; (4) `fresh`: proptest histories executed in a fresh process and each request alone in its own fresh process (no hooks). A third of the histories are clusters (all requests moved into the three years around one base year) and a third are neighbourhoods (all date-carrying requests within 45 days of one base date, half of the time a date where the calendar is irregular; month-carrying requests in the lunar months around it). Requests also cover solar terms incl. year-carrying indices, day->term, Julian date -> day/instant/weekday, civil day arithmetic, civil month lists, sexagenary months, and single requests that internally compare 'views read first' with 'not read' (reported as ORDER-DEPENDENT). Oracle: answer inside the history (run in its own fresh thread) == answer of the same request from a pristine state (guarded hooks empty the memo and clear lock poison; a brand-new thread gives pristine thread-locals) == answer in a fresh process; a history whose next request does not return within 1 min + 300x its pristine time is reported as blocked. Non-trivial: the history contains two lunar-month requests with equal concatenated digits, a month and its leap twin, or a refusal followed by at least one valid request; every threaded round is non-trivial. Distinct = distinct op sequences.".into(),
       assumptions: vec![
         "The in-process oracle trusts the verif-hooks reset/clear_poison accessors to restore a pristine state; the `fresh` sub-check does not use them and cross-checks this on sampled histories".into(),
         "Thread interleavings are whatever the OS scheduler produces in this run (sampled, not enumerated); a threaded violation may not reproduce from its replay file".into(),
@@ -1099,7 +1135,7 @@ impl Prop for C10 {
     }
   }
   fn plan(&self, env: &Env) -> Vec<TaskSpec> {
-    vec![task("collide", 4), task("history", 16), task("threads", env.tier.pick(4, 16)), task("hammer", env.tier.pick(5, 15)), task("fresh", 16)]
+    vec![task("collide", 4), task("history", 16), task("threads", env.tier.pick(4, 16)), task("hammer", env.tier.pick(5, 15)), task("long", 1), task("fresh", 16)]
   }
   fn run(&self, env: &Env, t: &str, shard: usize, nshards: usize, out: &mut Out) {
     let ev = |e: &Env, o: &mut Out, s: &str, cs: &Case| self.eval(e, o, s, cs);
@@ -1194,6 +1230,10 @@ impl Prop for C10 {
         }
         out.set_exhaustive("threads", false);
       }
+      "long" => {
+        run_case(env, out, "long", &Case::ints(&[env.tier.pick(5800, 9999)]), &ev);
+        out.set_exhaustive("long", false);
+      }
       "hammer" => {
         // every light observer: 48 dates (proptest: half from 6 different years spread over the range, half within 60 days
         // of irregular dates), hammered by 8 threads
@@ -1244,6 +1284,7 @@ impl Prop for C10 {
       "fresh" => self.eval_fresh(env, out, case),
       "threads" => self.eval_threads(env, out, case),
       "hammer" => self.eval_hammer(env, out, case),
+      "long" => self.eval_long(env, out, case),
       _ => panic!("unknown sub-check {}", sub),
     }
   }
